@@ -710,6 +710,12 @@ class Interp:
         if a is b:
             return a
         from . import imgdom as _img
+        # `if table has no rows: return []  else: return <one value per row>`: for a table without rows the per-row value is empty as
+        # well, so the merged result is the per-row value (every statement about its rows is vacuous when there are none)
+        for empty_, other_, then_side in ((a, b, True), (b, a, False)):
+            if isinstance(empty_, Seq) and not empty_.items and isinstance(other_, (Rot, Arr, Val)) and not isinstance(other_, Unk) \
+                    and getattr(other_, "space", None) is not None and self._emptiness_of(cterm, other_.space) is then_side:
+                return other_
         if isinstance(a, _img.Filtered) or isinstance(b, _img.Filtered):
             j_ = _img.join_filtered(cterm, a, b)
             if j_ is not None:
@@ -774,6 +780,44 @@ class Interp:
         if ta == tb:
             return a
         return Unk(mk("ite", cterm, ta, tb), space=getattr(a, "space", None) or getattr(b, "space", None), why="join")
+
+    @staticmethod
+    def _emptiness_of(cterm, space):
+        """cterm as a test "the array / table `space` derives from has no rows": True (holds exactly when empty), False (holds exactly
+        when not empty), None (something else)"""
+        c, neg = cterm, False
+        while c.op == "not":
+            c, neg = c.args[0], not neg
+        if c.op not in ("eq", "ne", "lt", "gt", "le", "ge") or len(c.args) != 2:
+            return None
+        l, r = c.args
+        op = c.op
+        if op in ("gt", "ge"):
+            l, r, op = r, l, {"gt": "lt", "ge": "le"}[op]
+
+        def count_of(t):
+            return tm.cval(t.args[1]) if t.op == "call" and t.args and t.args[0] == "nrows" and len(t.args) >= 2 else None
+        sid, when_empty = None, None
+        if op == "eq" and count_of(l) is not None and tm.cval(r) == 0:
+            sid, when_empty = count_of(l), True
+        elif op == "eq" and count_of(r) is not None and tm.cval(l) == 0:
+            sid, when_empty = count_of(r), True
+        elif op == "ne" and count_of(l) is not None and tm.cval(r) == 0:
+            sid, when_empty = count_of(l), False
+        elif op == "lt" and count_of(r) is not None and tm.cval(l) == 0:
+            sid, when_empty = count_of(r), False
+        elif op == "le" and count_of(r) is not None and tm.cval(l) == 1:
+            sid, when_empty = count_of(r), False
+        if sid is None:
+            return None
+        if neg:
+            when_empty = not when_empty
+        sp = space
+        while sp is not None:
+            if sp.id == sid:
+                return when_empty
+            sp = sp.parent
+        return None
 
     @staticmethod
     def _empty_side(cterm, a, b):
